@@ -95,6 +95,13 @@ func wireValueVars(w *spec.WCase) string {
 }
 
 func wireElem(w *spec.WCase, e *spec.WElem) string {
+	if e.Paren {
+		return "(" + wireElemBare(w, e) + ")"
+	}
+	return wireElemBare(w, e)
+}
+
+func wireElemBare(w *spec.WCase, e *spec.WElem) string {
 	c := w.Spec
 	switch e.Kind {
 	case "prov":
@@ -170,6 +177,8 @@ func WireFileSource(w *spec.WCase, f *spec.WFile) string {
 		s := &f.Sets[i]
 		if f.VarBlock {
 			fmt.Fprintf(&body, "\t%s = wire.NewSet(\n", s.Name)
+		} else if s.Paren {
+			fmt.Fprintf(&body, "var %s = (wire.NewSet(\n", s.Name)
 		} else {
 			fmt.Fprintf(&body, "var %s = wire.NewSet(\n", s.Name)
 		}
@@ -178,6 +187,8 @@ func WireFileSource(w *spec.WCase, f *spec.WFile) string {
 		}
 		if f.VarBlock {
 			body.WriteString("\t)\n")
+		} else if s.Paren {
+			body.WriteString("))\n\n")
 		} else {
 			body.WriteString(")\n\n")
 		}
